@@ -262,7 +262,7 @@ fn spawn_search(cfg: &Cfg, sched_seed: u64, iterations: usize, depth: usize, dir
 fn run(args: &Args) -> i32 {
     let thorough = args.tier == "thorough";
     // (configurations, schedules per configuration)
-    let (configs, iters): (u64, usize) = if thorough { (args.count.unwrap_or(4000), 500) } else { (args.count.unwrap_or(400), 50) };
+    let (configs, iters): (u64, usize) = if thorough { (args.count.unwrap_or(100_000), 500) } else { (args.count.unwrap_or(3000), 100) };
     println!("sdshuttle: property={} tier={} VERIF_SEED={} configurations={} schedules_each={} jobs={}", PROP, args.tier, args.seed, configs, iters, args.jobs);
     let start = Instant::now();
     let base = scratch_root().join(format!("shuttle-{}", std::process::id()));
